@@ -107,7 +107,12 @@ static inline int wb_abs_int(int x) { return x < 0 ? -x : x; }
 /* ---- std::vector<T>: struct with embedded typed storage of WB_CAP_<name> elements (no heap, no pointers:
  * copies are deep like in C++, and CBMC sees typed arrays).  Growth asserts the model bound; element access
  * asserts index < size (which std::vector leaves undefined). ---- */
+#ifdef WB_NATIVE
 static inline size_t wb_idx(size_t i, size_t n) { WB_ASSERT(i < n, "vector index within size"); return i; }
+#else
+/* a macro, not a function: every function call costs DFCC write-set plumbing (index expressions are side-effect free) */
+#define wb_idx(i, n) ((void)__CPROVER_assert((size_t)(i) < (size_t)(n), "vector index within size"), (size_t)(i))
+#endif
 #define WB_VEC_SHIMS(NAME, T)                                                                           \
   static inline void NAME##_push(struct NAME *v, T x)                                                   \
   { WB_ASSERT(v->n < WB_CAP_##NAME, "MODEL-BOUND vector capacity"); v->data[v->n] = x; v->n = v->n + 1; } \
